@@ -140,13 +140,14 @@ _GROUPS: dict = {}        # filled before the worker pool forks: (cfgkey, chunk)
 
 
 def _parse_hist(res):
-    """HIST lines -> {cfgkey: [leaf]}, leaf = tuple of (n, d, num, den, dofN, dofD, det, und)."""
+    """HIST lines -> {cfgkey: [leaf]}, leaf = tuple of (n, d, num, den, dofN, dofD, dets, unds)
+    with dets / unds listed per significance level."""
     groups: dict = {}
     n = 0
     for m in re.finditer(r'^"HIST .*"$', res.stdout, re.M):
-        kind, w, p, q, a, hist = json.loads(json.loads(m.group(0))[5:])
-        leaf = tuple((s[0], s[1], big(s[2]), big(s[3]), s[4], s[5], s[6], s[7]) for s in hist)
-        groups.setdefault((kind, w, p, q, a), []).append(leaf)
+        kind, w, p, q, hist = json.loads(json.loads(m.group(0))[5:])
+        leaf = tuple((s[0], s[1], big(s[2]), big(s[3]), s[4], s[5], tuple(s[6]), tuple(s[7])) for s in hist)
+        groups.setdefault((kind, w, p, q), []).append(leaf)
         n += 1
     return groups, n
 
@@ -154,14 +155,15 @@ def _parse_hist(res):
 def _replay_group(args):
     """Walk the histories of one detector configuration as a trie through the real class."""
     gkey, alphas, nis_den, dense, seed = args
-    (kind, w, p, q, a), leaves = gkey[0], _GROUPS[gkey]
-    alpha = alphas[a - 1]
+    (kind, w, p, q), leaves = gkey[0], _GROUPS[gkey]
+    na = len(alphas)
     rng = np.random.default_rng([seed, hash_key(gkey)])
     leaves = sorted(leaves, key=lambda lf: [(s[1], s[0]) for s in lf])
-    stack = [make_detector(kind, w, p, q, alpha)]     # stack[j] = real detector after j calls
-    sib: list = []                                    # sib[j] = (d, n, detected) of the last child taken at depth j
+    # stack[j] = the real detectors (one per threshold) after j calls
+    stack = [[make_detector(kind, w, p, q, alpha) for alpha in alphas]]
+    sib: list = []                # sib[j] = (d, n, detections) of the last child taken at depth j
     prev: tuple = ()
-    st = {"nodes": 0, "det": 0, "nodet": 0, "excluded": 0, "mono_pairs": 0, "viol": [], "bad_spec": []}
+    st = {"nodes": 0, "calls": 0, "det": 0, "nodet": 0, "excluded": 0, "mono_pairs": 0, "viol": [], "bad_spec": []}
     for leaf in leaves:
         inputs = tuple((s[0], s[1]) for s in leaf)
         c = 0
@@ -173,40 +175,50 @@ def _replay_group(args):
         del sib[c + 1:]
         for j in range(c, len(inputs)):
             n, d, num, den, dn, dd, sdet, sund = leaf[j]
-            det = copy.deepcopy(stack[j])
+            if len(sdet) != na:
+                raise tlc.MachineryError(f"history lists {len(sdet)} significance levels, harness has {na}")
+            dets = copy.deepcopy(stack[j])
             nis = n / nis_den
             r, s_mat = make_input(rng, nis, d, dense)
-            got = bool(det(r, s_mat))
-            metric = det.metric
-            st["nodes"] += 1
             exp = float(Fraction(num, den))
-            where = {"kind": kind, "w": w, "delta": [p, q], "threshold": alpha, "nis_den": nis_den,
-                     "history": [list(x) for x in inputs[:j + 1]], "step": j + 1}
-            if not close(metric, exp):
-                st["viol"].append((f"{kind}-metric", f"{CLS[kind]}.metric = {metric!r} but the documented statistic is "
-                                   f"{num}/{den} = {exp!r} at call {j + 1}", dict(where, expected=[str(num), str(den)], got=repr(metric))))
-            b = bound(alpha, dn, dd)
-            if abs(exp - b) <= REL * max(1.0, b):
-                st["excluded"] += 1
-                want = None
-            else:
+            st["nodes"] += 1
+            gots = []
+            for ai, det in enumerate(dets):
+                alpha = alphas[ai]
+                got = bool(det(r, s_mat))
+                gots.append(got)
+                metric = det.metric
+                st["calls"] += 1
+                where = {"kind": kind, "w": w, "delta": [p, q], "threshold": alpha, "nis_den": nis_den,
+                         "history": [list(x) for x in inputs[:j + 1]], "step": j + 1}
+                if not close(metric, exp):
+                    st["viol"].append((f"{kind}-metric", f"{CLS[kind]}.metric = {metric!r} but the documented statistic is "
+                                       f"{num}/{den} = {exp!r} at call {j + 1}",
+                                       dict(where, expected=[str(num), str(den)], got=repr(metric))))
+                b = bound(alpha, dn, dd)
+                if abs(exp - b) <= REL * max(1.0, b):
+                    st["excluded"] += 1
+                    continue
                 want = exp >= b
                 st["det" if want else "nodet"] += 1
-                if not sund and bool(sdet) != want:
-                    st["bad_spec"].append((where, sdet, want, exp, b))
+                if not sund[ai] and bool(sdet[ai]) != want:
+                    st["bad_spec"].append((where, sdet[ai], want, exp, b))
                 if got != want:
                     st["viol"].append((f"{kind}-detect", f"{CLS[kind]} returned {got} but metric {exp:.9g} vs chi2.isf({alpha}, "
                                        f"{dn}/{dd}) = {b:.9g} means {want} at call {j + 1}",
                                        dict(where, dof=[dn, dd], bound=b, metric=exp, got=got)))
             # siblings: same prefix, same dimension, larger latest NIS
             if j < len(sib) and sib[j][0] == d and sib[j][1] < n:
-                st["mono_pairs"] += 1
-                if sib[j][2] and not got:
-                    st["viol"].append((f"{kind}-not-monotone", f"{CLS[kind]}: latest NIS {sib[j][1]}/{nis_den} detected, "
-                                       f"{n}/{nis_den} did not", dict(where, smaller=sib[j][1])))
+                for ai in range(na):
+                    st["mono_pairs"] += 1
+                    if sib[j][2][ai] and not gots[ai]:
+                        st["viol"].append((f"{kind}-not-monotone", f"{CLS[kind]}: latest NIS {sib[j][1]}/{nis_den} detected, "
+                                           f"{n}/{nis_den} did not",
+                                           {"kind": kind, "w": w, "delta": [p, q], "threshold": alphas[ai], "nis_den": nis_den,
+                                            "history": [list(x) for x in inputs[:j + 1]], "step": j + 1, "smaller": sib[j][1]}))
             del sib[j:]
-            sib.append((d, n, got))
-            stack.append(det)
+            sib.append((d, n, gots))
+            stack.append(dets)
         prev = inputs
     return st
 
@@ -216,23 +228,26 @@ def hash_key(k):
     return int.from_bytes(hashlib.blake2b(repr(k).encode(), digest_size=4).digest(), "big")
 
 
-def replay_histories(ctx: Ctx, res, alphas, nis_den, dense, what, procs):
+def replay_histories(ctx: Ctx, res, alphas, nis_den, dense, what, procs, expect_configs=None):
     groups, n_leaves = _parse_hist(res)
     if n_leaves == 0:
         raise tlc.MachineryError(f"{what}: TLC emitted no history")
     _GROUPS.clear()
-    jobs = []
     n_case = 0
+    if expect_configs is not None and set(groups) != expect_configs:
+        raise tlc.MachineryError(f"{what}: histories emitted for {len(groups)} detector configurations, expected {len(expect_configs)} "
+                                 f"(missing {sorted(expect_configs - set(groups))[:5]})")
     for ckey, leaves in sorted(groups.items()):
         for lf in leaves:
             n_case += 1
             inputs = tuple((s[0], s[1]) for s in lf)
             ctx.case((ckey, nis_den, inputs), nontrivial=any(s[0] for s in lf),
                      sample={"config": ckey, "nis_den": nis_den, "history": inputs[:6],
-                             "expected_last": [str(lf[-1][2]), str(lf[-1][3]), lf[-1][4], lf[-1][5], lf[-1][6]]}
+                             "expected_last": {"metric": [str(lf[-1][2]), str(lf[-1][3])], "dof": [lf[-1][4], lf[-1][5]],
+                                               "detect_per_threshold": lf[-1][6]}}
                      if n_case % 40009 == 1 else None)
         # split big groups by the dimension of the first call so that the pool stays busy
-        if len(leaves) > 4000:
+        if len(leaves) > 1500:
             parts: dict = {}
             for lf in leaves:
                 parts.setdefault((lf[0][1], lf[0][0]), []).append(lf)
@@ -248,7 +263,7 @@ def replay_histories(ctx: Ctx, res, alphas, nis_den, dense, what, procs):
     else:
         stats = [_replay_group(j) for j in jobs]
     _GROUPS.clear()
-    tot = {"nodes": 0, "det": 0, "nodet": 0, "excluded": 0, "mono_pairs": 0}
+    tot = {"nodes": 0, "calls": 0, "det": 0, "nodet": 0, "excluded": 0, "mono_pairs": 0}
     for st in stats:
         for k in tot:
             tot[k] += st[k]
@@ -278,13 +293,20 @@ def run_spec_to_impl(ctx: Ctx):
         d = ctx.sub(f"exh{r}")
         (d / "bound.json").write_text(table)
         res = tlc.require_ok(tlc.run_tlc("Detectors", text + "\n", d, workers=workers, env={"BOUND_FILE": "bound.json"},
-                                         timeout=3000, coverage=(r == 0 and ctx.quick)), f"Detectors exhaustive {kinds or ''}")
+                                         timeout=3000, coverage=bool(os.environ.get("C17_COVERAGE"))), f"Detectors exhaustive {kinds or ''}")
         ctx.add_tlc(res, f"Detectors.tla exhaustive histories {kinds or 'all kinds'} (theorems + emitted expectations)")
         for inv, states in res.invariant_violations:
             raise tlc.MachineryError(f"Detectors.tla theorem {inv} fails at spec level:\n" + "\n".join(states[-1:]))
-        if r == 0 and ctx.quick:
+        if res.coverage:
             check_coverage(ctx, res)
-        replay_histories(ctx, res, ALPHAS_SMALL, nis_den, dense=not ctx.quick, what=f"exhaustive{r}", procs=procs)
+        # every Construct* / *Step action of the spec must have produced histories
+        want = set()
+        if kinds is None or "standard" in kinds:
+            want.add(("standard", 0, 0, 1))
+            want.update(("sliding", w, 0, 1) for w in (1, 2, 3, 4))
+        if kinds is None or "fading" in kinds:
+            want.update(("fading", 0, p, q) for p, q in DELTAS_QUICK)
+        replay_histories(ctx, res, ALPHAS_SMALL, nis_den, dense=not ctx.quick, what=f"exhaustive{r}", procs=procs, expect_configs=want)
         res.stdout = ""
 
 
@@ -304,7 +326,7 @@ def run_simulation(ctx: Ctx):
     max_len = int(re.search(r"MaxLen = (\d+)", cfg_text).group(1))
     alphas = ALPHAS_WIDE[:5] if ctx.quick else ALPHAS_WIDE
     table = json.dumps(bound_table(alphas, dof_lattice(max_len, 8, 10, DELTAS_WIDE)))
-    nruns, num = (2, 60) if ctx.quick else (8, 800)
+    nruns, num = (2, 25) if ctx.quick else (8, 400)
 
     def one(r):
         d = ctx.sub(f"sim{r}")
@@ -485,11 +507,13 @@ def run(ctx: Ctx):
         "fading-memory dof uses the running average dimension over the whole run, as the code documents (DESIGN.md 7-5)",
         "inputs are residual vectors / covariances whose quadratic form equals the posed NIS to 1e-12 (identity-scaled or dense positive definite, cond < 100)",
     ]
-    run_spec_to_impl(ctx)
-    run_simulation(ctx)
-    run_impl_to_spec(ctx, rng)
-    if not ctx.quick:
-        run_deep(ctx)
+    import time
+    phases = ctx.extra.setdefault("phase_wall_s", {})
+    for name, fn in (("spec_to_impl_exhaustive", lambda: run_spec_to_impl(ctx)), ("spec_to_impl_simulate", lambda: run_simulation(ctx)),
+                     ("impl_to_spec_traces", lambda: run_impl_to_spec(ctx, rng)), ("deep_theorems", lambda: None if ctx.quick else run_deep(ctx))):
+        t0 = time.time()
+        fn()
+        phases[name] = round(time.time() - t0, 1)
 
 
 def replay(ctx: Ctx, rp: dict):
